@@ -31,6 +31,10 @@ pub struct Ent {
     pub shape: u64,
     /// digest of (wire form, flag)
     pub id: u64,
+    /// dense rank of the labels under the canonical order WITHOUT case folding
+    pub rank_case: u32,
+    /// case-folded labels
+    pub lowl: vref::name::Labels,
 }
 
 fn h64<T: Hash>(t: &T) -> u64 {
@@ -58,6 +62,8 @@ pub fn ent(r: RefName) -> Result<Ent, String> {
         flat,
         shape,
         id: fnv64(&vref::name::to_wire(&r.labels)) ^ (r.fqdn as u64),
+        rank_case: 0,
+        lowl: vref::name::lower(&r.labels),
         r,
     })
 }
@@ -93,6 +99,14 @@ pub fn universe(ctx: &Ctx, names: Vec<RefName>) -> Vec<Ent> {
             }
         }
         ents[idx[k]].rank = rank;
+    }
+    idx.sort_by(|&a, &b| vref::name::canonical_cmp_case(&ents[a].r.labels, &ents[b].r.labels));
+    let mut rank = 0u32;
+    for k in 0..idx.len() {
+        if k > 0 && vref::name::canonical_cmp_case(&ents[idx[k - 1]].r.labels, &ents[idx[k]].r.labels) != Ordering::Equal {
+            rank += 1;
+        }
+        ents[idx[k]].rank_case = rank;
     }
     ents
 }
@@ -138,6 +152,7 @@ pub fn judge_pair(a: &Ent, b: &Ent, full: bool, l: &mut Local) {
         }
     }
     if full {
+        crate::laws::judge_pair_laws(a, b, l);
         if a.h.partial_cmp(&b.h) != Some(got) {
             l.violation("cmp:partial_cmp-differs", "partial_cmp != Some(cmp)", || pair_case(&a.r, &b.r));
         }
@@ -232,6 +247,11 @@ pub fn replay_pair(case: &Value, l: &mut Local) {
     match canonical_cmp(&a.r.labels, &b.r.labels) {
         Ordering::Less => b.rank = 1,
         Ordering::Greater => a.rank = 1,
+        Ordering::Equal => {}
+    }
+    match vref::name::canonical_cmp_case(&a.r.labels, &b.r.labels) {
+        Ordering::Less => b.rank_case = 1,
+        Ordering::Greater => a.rank_case = 1,
         Ordering::Equal => {}
     }
     l.eval();
@@ -359,4 +379,16 @@ pub fn replay_label_pair(case: &Value, l: &mut Local) {
     if a.eq_ignore_ascii_case(&b) != want_eq {
         l.violation("label-eq_ignore_ascii_case", "disagrees with ASCII-folded identity", || case.clone());
     }
+}
+
+/// Unary laws on every name of a universe.
+pub fn run_unary_laws(ctx: &Ctx, ents: &[Ent]) {
+    ctx.add_count("law_names", ents.len() as u64);
+    ctx.par_run(ents.len() as u64, 64, |i, l| {
+        let e = &ents[i as usize];
+        crate::laws::run_unary(&e.r, &e.h, l);
+        if i % 9973 == 5 {
+            l.sample(crate::laws::unary_case(&e.r));
+        }
+    });
 }
